@@ -2,6 +2,7 @@ package main
 
 import (
 	"fmt"
+	"go/token"
 	"go/types"
 	"sort"
 	"strings"
@@ -380,6 +381,34 @@ var bigMutators = map[string]bool{"Set": true, "SetInt64": true, "SetUint64": tr
 	"Add": true, "Sub": true, "Mul": true, "Div": true, "Mod": true, "Quo": true, "Rem": true, "DivMod": true, "QuoRem": true, "Exp": true, "Neg": true, "Abs": true,
 	"Lsh": true, "Rsh": true, "And": true, "AndNot": true, "Or": true, "Xor": true, "Not": true, "Sqrt": true, "ModInverse": true, "ModSqrt": true, "GCD": true, "Rand": true, "Binomial": true, "MulRange": true}
 
+var syncMutators = map[string]bool{"Store": true, "LoadOrStore": true, "Swap": true, "CompareAndSwap": true, "Delete": true, "LoadAndDelete": true, "CompareAndDelete": true, "Add": true, "And": true, "Or": true, "Clear": true}
+
+// rootGlobal returns the package-level variable an address or container value is part of:
+// the global itself, a field/element address inside it, or a value loaded from it
+// (map or pointer held in the global).
+func rootGlobal(v ssa.Value) *ssa.Global {
+	for i := 0; i < 8 && v != nil; i++ {
+		switch x := v.(type) {
+		case *ssa.Global:
+			return x
+		case *ssa.FieldAddr:
+			v = x.X
+		case *ssa.IndexAddr:
+			v = x.X
+		case *ssa.UnOp:
+			if x.Op != token.MUL {
+				return nil
+			}
+			v = x.X
+		case *ssa.ChangeType:
+			v = x.X
+		default:
+			return nil
+		}
+	}
+	return nil
+}
+
 func (k *K) globalWriteRule(id string, fns []*ssa.Function) {
 	n := 0
 	for _, fn := range fns {
@@ -392,12 +421,27 @@ func (k *K) globalWriteRule(id string, fns []*ssa.Function) {
 			for _, in := range b.Instrs {
 				switch x := in.(type) {
 				case *ssa.Store:
-					if g, ok := x.Addr.(*ssa.Global); ok {
+					if g := rootGlobal(x.Addr); g != nil {
 						n++
-						k.r.Violate(id+"/"+name+":"+g.Name(), "NO-GLOBAL-WRITE", name, k.w.Pos(in.Pos()), "consensus code assigns the package-level variable "+g.Name()+": state outside the store survives failed and repeated executions in the same process")
+						k.r.Violate(id+"/"+name+":"+g.Name(), "NO-GLOBAL-WRITE", name, k.w.Pos(in.Pos()), "consensus code assigns (a part of) the package-level variable "+g.Name()+": state outside the store survives failed and repeated executions in the same process")
+					}
+				case *ssa.MapUpdate:
+					if g := rootGlobal(x.Map); g != nil {
+						n++
+						k.r.Violate(id+"/"+name+":"+g.Name()+"[]", "NO-GLOBAL-WRITE", name, k.w.Pos(in.Pos()), "consensus code inserts into the package-level map "+g.Name()+": a process-wide memo makes the result of a later execution depend on earlier executions in the same process")
 					}
 				case *ssa.Call:
 					callee := x.Call.StaticCallee()
+					// mutating methods of process-wide containers (sync.Map, sync/atomic values) on a package-level variable
+					if callee != nil && callee.Signature.Recv() != nil && len(x.Call.Args) > 0 {
+						rt := typeString(callee.Signature.Recv().Type())
+						if (strings.HasPrefix(rt, "*sync.Map") || strings.HasPrefix(rt, "*sync/atomic.")) && syncMutators[callee.Name()] {
+							if g := rootGlobal(x.Call.Args[0]); g != nil {
+								n++
+								k.r.Violate(id+"/"+name+":"+g.Name()+"."+callee.Name(), "NO-GLOBAL-WRITE", name, k.w.Pos(in.Pos()), "consensus code stores into the package-level "+strings.TrimPrefix(rt, "*")+" "+g.Name()+": a process-wide memo makes the result of a later execution depend on earlier executions in the same process")
+							}
+						}
+					}
 					if callee == nil || callee.Signature.Recv() == nil || !bigMutators[callee.Name()] {
 						continue
 					}
